@@ -9,6 +9,7 @@ import copy
 import hashlib
 import itertools
 import json
+import os
 import pickle
 from collections import Counter
 
@@ -227,11 +228,11 @@ def outcomes_equal(a, b):
 
 def compute_reference(req):
     """Runs in a pristine grandchild (see isolate.RefServer)."""
-    uc, sg, asym, titl, op, A = req
+    uc, sg, asym, titl, op, A, refdir = req
     fn = O.ALL_QUERIES[op][0] if op in O.ALL_QUERIES else O.RAISERS[op]
     FS.install()
-    FS.reset()
-    return outcome(fn, Crystal(uc, sg, asym, titl=titl), A, {"dir": "/simfs/ref"})
+    os.makedirs(os.path.join(refdir, "sub"), exist_ok=True)  # inside the run's private tmpfs directory
+    return outcome(fn, Crystal(uc, sg, asym, titl=titl), A, {"dir": refdir})
 
 
 class Sim:
@@ -247,7 +248,7 @@ class Sim:
         self.source_spec = source_spec
         self.A = args
         try:
-            self.world = [sources.build(source_spec)]
+            self.world = [sources.build(source_spec, fs_dir=FS.dir("src"))]
         except BaseException:
             self.close()
             raise
@@ -270,6 +271,7 @@ class Sim:
         if self.ref_server is not None:
             self.ref_server.close()
             self.ref_server = None
+        FS.cleanup()
 
     def reference(self, pre, op, fn):
         """Outcome of the same call on the reference model: a crystal freshly
@@ -277,7 +279,7 @@ class Sim:
         uc, sg, asym, titl = pre
         if self.ref_server is not None:
             try:
-                return self.ref_server.ask((uc, sg, asym, titl, op, self.A))
+                return self.ref_server.ask((uc, sg, asym, titl, op, self.A, FS.dir("refiso", str(self.n_steps))))
             except Unpicklable:
                 # the state objects cannot travel to another process (then a
                 # Crystal cannot be pickled either): in-process reference
@@ -286,7 +288,7 @@ class Sim:
                 raise HarnessError(str(e))
         # a directory of its own per reference query: a cache keyed by file
         # name must not be able to serve the reference an older file
-        return outcome(fn, Crystal(uc, sg, asym, titl=titl), self.A, {"dir": "/simfs/ref/%d" % self.n_steps})
+        return outcome(fn, Crystal(uc, sg, asym, titl=titl), self.A, {"dir": FS.dir("ref", str(self.n_steps))})
 
     # ----------------------------------------------------------------- logging
     def _log(self, i, hi, op, out):
@@ -368,7 +370,7 @@ class Sim:
         if inject:
             INJECTOR.arm(inject["target"], inject["nth"], inject["exc"])
         try:
-            a = outcome(fn, h, self.A, {"dir": "/simfs/h%d" % hi})
+            a = outcome(fn, h, self.A, {"dir": FS.dir("h%d" % hi)})
         finally:
             fired = INJECTOR.disarm() if inject else False
         if inject:
@@ -432,7 +434,7 @@ class Sim:
         if inject:
             INJECTOR.arm(inject["target"], inject["nth"], inject["exc"])
         try:
-            a = outcome(O.MUTATORS[op], h, self.A, {"dir": "/simfs/h%d" % hi})
+            a = outcome(O.MUTATORS[op], h, self.A, {"dir": FS.dir("h%d" % hi)})
         finally:
             fired = INJECTOR.disarm() if inject else False
         if inject:
@@ -469,7 +471,7 @@ class Sim:
                 # same text): it must be the crystal the run started from,
                 # whatever happened to other crystal objects in between
                 try:
-                    new = sources.build(self.source_spec, fs_dir="/simfs/src%d" % len(self.world))
+                    new = sources.build(self.source_spec, fs_dir=FS.dir("src%d" % len(self.world)))
                 except sources.SourceError as e:
                     raise Violation("EXCEPTION_MISMATCH", i, op, hi, {
                         "what": "loading the same source again failed: %s" % e, "after": self._after(hi)})
@@ -549,7 +551,7 @@ class Sim:
         h = self.world[hi]
         S = state_digest(h)
         others = self._others(hi)
-        path = "/simfs/h%d/%s" % (hi, O.WRITE_FAULT_TARGETS[st["fmt"]])
+        path = "%s/%s" % (FS.dir("h%d" % hi), O.WRITE_FAULT_TARGETS[st["fmt"]])
         if st["when"] == "read":
             # a good file first, then the read of it fails
             try:
@@ -656,7 +658,7 @@ def _attribute_child(schedule, vj):
     names = carriers_present(h)
     hi = v.handle % len(sim.world)
     ref = Crystal(*rebuild_state(h), titl=sim.titl0[hi])
-    b = outcome(fn, ref, sim.A, {"dir": "/simfs/ref"})
+    b = outcome(fn, ref, sim.A, {"dir": FS.dir("ref")})
     for size in range(1, len(names) + 1):
         for subset in itertools.combinations(names, size):
             trial = copy.deepcopy(h)
@@ -665,7 +667,7 @@ def _attribute_child(schedule, vj):
                     trial.properties.pop("cif_data", None)
                 else:
                     trial.__dict__.pop(k, None)
-            a = outcome(fn, trial, sim.A, {"dir": "/simfs/attr"})
+            a = outcome(fn, trial, sim.A, {"dir": FS.dir("attr")})
             if outcomes_equal(a, b):
                 return list(subset)
     return []
